@@ -487,11 +487,13 @@ package values
 //@ assigns nothing
 
 //@ func values.Convert
-//@ props C01 C02
+//@ props C01 C02 C16
 //@ panics nothing
 //@ requires typ: typ != 0
 //@ assigns alloc S$Val, alloc S$Slc, alloc S$Int, alloc S$Str, alloc S$RV
 //@ ensures value: result1 == nil ==> result0 != nil
+// a number or boolean handed to a string parameter becomes the text it prints as (C16)
+//@ ensures asPrinted: kindof(typ) == reflect.String && values.ToLiquid(value) != nil && (isnum(kind(values.ToLiquid(value))) || kind(values.ToLiquid(value)) == reflect.Bool) && !is(values.ToLiquid(value), fmt.Stringer) ==> result1 == nil && result0 == box(sprint1(values.ToLiquid(value)), string)
 //@ at call SortedMapKeys #1 before assert mapOrder: kindof(typ) == reflect.Slice
 //@ loop 1 invariant result: rv_valid(result) && !rv_iface(result) && typeof(rv_val(result)) == typ
 //@ loop 2 invariant result: rv_valid(result) && !rv_iface(result) && typeof(rv_val(result)) == typ
